@@ -44,6 +44,9 @@ ASSUMPTIONS = [
     "lines of the submitted text are delimited by the spec's LineTerminator (LF | CR | CRLF)",
 ]
 TRUSTED = [
+    "extraction of Generated/ResponseKeys.lean: static route = the expected syntactic shape; dynamic fallback = the same table obtained by running the real "
+    "code on the COMPLETE finite domain (9 located classes x 2 messages x 4 node kinds x 5 paths x 4 extension kinds = 600 error objects, 7 syntax-error "
+    "classes x 4 positions, 2 execution classes, 12 GraphQLResult shapes, 17 requests x 2 entry points over the 4 abort sites) and required to match the table's prediction everywhere",
     "error objects are values in the Lean model: sharing/mutation of one exception object between registrations (X6, cached coercion failures) is exercised by the oracle (null sites computed without looking at the errors) and the correspondence, not proved",
     "highlight_location (the text after the message of a syntax error) is opaque in the model: only its totality for positions <= len is exercised",
     "stage outcomes (error positions, paths, extensions, data) are observed through the real stage functions; scalar serialisers are exercised, not modelled",
@@ -58,126 +61,20 @@ WRAPPERS = REPO / "src/py_gql/execution/wrappers.py"
 # extraction: keys of every to_dict / response(), the filter of GraphQLLocatedError.to_dict,
 # and the keyword arguments of every `_abort(...)` in process_graphql_query
 
-class Shape(Exception):
-    pass
+from corr import C10_extract as X  # noqa: E402
 
-
-def _find(tree, cls, fn):
-    for n in tree.body:
-        if isinstance(n, pyast.ClassDef) and n.name == cls:
-            for m in n.body:
-                if isinstance(m, pyast.FunctionDef) and m.name == fn:
-                    return m
-    raise Shape("%s.%s not found" % (cls, fn))
-
-
-def _const_keys(d):
-    if not isinstance(d, pyast.Dict) or not all(isinstance(k, pyast.Constant) and isinstance(k.value, str) for k in d.keys):
-        raise Shape("dict literal with constant string keys expected")
-    return [k.value for k in d.keys]
+Shape = X.Shape
 
 
 def source_facts():
-    f = {}
-    exc = pyast.parse(EXC.read_text())
-    # GraphQLSyntaxError.to_dict: return {"message": ..., "locations": [{"line": line, "<col>": col}]}
-    fn = _find(exc, "GraphQLSyntaxError", "to_dict")
-    ret = [n for n in pyast.walk(fn) if isinstance(n, pyast.Return)]
-    if len(ret) != 1:
-        raise Shape("GraphQLSyntaxError.to_dict: one return expected")
-    keys = _const_keys(ret[0].value)
-    if keys != ["message", "locations"]:
-        raise Shape("GraphQLSyntaxError.to_dict keys %r" % keys)
-    locs = ret[0].value.values[1]
-    if not (isinstance(locs, pyast.List) and len(locs.elts) == 1):
-        raise Shape("GraphQLSyntaxError.to_dict: one location expected")
-    lk = _const_keys(locs.elts[0])
-    lv = [v.id if isinstance(v, pyast.Name) else None for v in locs.elts[0].values]
-    if len(lk) != 2 or lv != ["line", "col"]:
-        raise Shape("GraphQLSyntaxError.to_dict: location {<k1>: line, <k2>: col} expected")
-    f["syntaxLineKey"], f["syntaxColKey"] = lk
-    # GraphQLLocatedError.to_dict
-    fn = _find(exc, "GraphQLLocatedError", "to_dict")
-    kv = [n for n in pyast.walk(fn) if isinstance(n, pyast.Assign) and getattr(n.targets[0], "id", "") == "kv"]
-    if len(kv) != 1 or not isinstance(kv[0].value, pyast.Tuple):
-        raise Shape("GraphQLLocatedError.to_dict: kv tuple expected")
-    names = [e.elts[0].value for e in kv[0].value.elts]
-    if names != ["message", "locations", "path"]:
-        raise Shape("GraphQLLocatedError.to_dict: kv keys %r" % names)
-    comp = [n for n in pyast.walk(kv[0].value.elts[1]) if isinstance(n, pyast.Dict)]
-    if len(comp) != 1:
-        raise Shape("GraphQLLocatedError.to_dict: one location dict expected")
-    lk = _const_keys(comp[0])
-    lv = [v.id if isinstance(v, pyast.Name) else None for v in comp[0].values]
-    if len(lk) != 2 or lv != ["line", "col"]:
-        raise Shape("GraphQLLocatedError.to_dict: location {<k1>: line, <k2>: col} expected")
-    f["locatedLineKey"], f["locatedColKey"] = lk
-    ret = [n for n in pyast.walk(fn) if isinstance(n, pyast.Return)]
-    if len(ret) != 1 or not isinstance(ret[0].value, pyast.DictComp) or len(ret[0].value.generators[0].ifs) != 1:
-        raise Shape("GraphQLLocatedError.to_dict: `{k: v for k, v in kv if <cond>}` expected")
-    cond = pyast.unparse(ret[0].value.generators[0].ifs[0])
-    if cond == "v":
-        f["locatedKeepsEmptyMessage"] = False
-    elif cond in ("v or k == 'message'", "k == 'message' or v"):
-        f["locatedKeepsEmptyMessage"] = True
-    else:
-        raise Shape("GraphQLLocatedError.to_dict: unknown filter `%s`" % cond)
-    # ResolverError.to_dict: dict_["extensions"] = dict(self.extensions) guarded by `if self.extensions`
-    fn = _find(exc, "ResolverError", "to_dict")
-    subs = [n for n in pyast.walk(fn) if isinstance(n, pyast.Subscript) and isinstance(n.ctx, pyast.Store)]
-    if len(subs) != 1 or not isinstance(subs[0].slice, pyast.Constant):
-        raise Shape("ResolverError.to_dict: one key assignment expected")
-    f["resolverExtKey"] = subs[0].slice.value
-    fn = _find(exc, "ExecutionError", "to_dict")
-    ret = [n for n in pyast.walk(fn) if isinstance(n, pyast.Return)]
-    f["executionKeys"] = _const_keys(ret[0].value)
-    if f["executionKeys"] != ["message"]:
-        raise Shape("ExecutionError.to_dict keys %r" % f["executionKeys"])
-    # GraphQLResult.response: d["errors"], d["data"], d["extensions"] in that order
-    fn = _find(pyast.parse(WRAPPERS.read_text()), "GraphQLResult", "response")
-    keys = [n.slice.value for n in pyast.walk(fn)
-            if isinstance(n, pyast.Subscript) and isinstance(n.ctx, pyast.Store) and isinstance(n.slice, pyast.Constant)]
-    if sorted(keys) != ["data", "errors", "extensions"]:
-        raise Shape("GraphQLResult.response keys %r" % keys)
-    f["responseKeys"] = keys
-    # process_graphql_query: the _abort calls
-    tree = pyast.parse(GRAPHQL.read_text())
-    pq = [n for n in tree.body if isinstance(n, pyast.FunctionDef) and n.name == "process_graphql_query"]
-    if not pq:
-        raise Shape("process_graphql_query not found")
-    aborts = {}
-    for n in pyast.walk(pq[0]):
-        if isinstance(n, pyast.Try):
-            for h in n.handlers:
-                cls = pyast.unparse(h.type)
-                for c in pyast.walk(h):
-                    if isinstance(c, pyast.Call) and getattr(c.func, "id", "") == "_abort":
-                        aborts[cls] = c
-        if isinstance(n, pyast.If) and pyast.unparse(n.test) == "not validation_result":
-            for c in pyast.walk(n):
-                if isinstance(c, pyast.Call) and getattr(c.func, "id", "") == "_abort":
-                    aborts["validation"] = c
-        # since the N1 fix the syntax abort happens after the parsing `finally`: `if syntax_error is not None: return _abort(...)`
-        if isinstance(n, pyast.If) and pyast.unparse(n.test) == "syntax_error is not None":
-            for c in pyast.walk(n):
-                if isinstance(c, pyast.Call) and getattr(c.func, "id", "") == "_abort":
-                    aborts["GraphQLSyntaxError"] = c
-    want = {"GraphQLSyntaxError": "abortSyntax", "validation": "abortValidation",
-            "VariablesCoercionError": "abortCoercion", "ExecutionError": "abortExecution"}
-    if set(aborts) != set(want):
-        raise Shape("process_graphql_query: _abort sites %r" % sorted(aborts))
-    for cls, c in aborts.items():
-        kws = {k.arg: k.value for k in c.keywords}
-        if c.args or not set(kws) <= {"data", "errors"} or "errors" not in kws:
-            raise Shape("_abort call shape at %s" % cls)
-        if "data" in kws and not (isinstance(kws["data"], pyast.Constant) and kws["data"].value is None):
-            raise Shape("_abort(data=<not None>) at %s" % cls)
-        f[want[cls] + "PassesData"] = "data" in kws
-    return f
+    return X.facts()[0]
 
 
 def extract(ctx):
-    f = source_facts()
+    f, routes = X.facts()
+    if ctx is not None:
+        ctx.extra["extraction"] = "static" if all(r == "static" for r in routes.values()) else "dynamic"
+        ctx.extra["extraction_routes"] = routes
 
     def s(x):
         return json.dumps(x)
@@ -787,6 +684,8 @@ def run(ctx):
 
 def _run(ctx, rng, pending):
     base = schemas_for(BASE_SDL)
+    # --- every error class x nodes x path x extensions: the finite domain of `to_dict` -------
+    errobj_stream(ctx, pending)
     # --- corpus --------------------------------------------------------------------------------------
     cdir = CORPUS / "C10"
     if cdir.exists():
@@ -907,6 +806,51 @@ def _run(ctx, rng, pending):
         line_structure_check(ctx, texts)
 
 
+def errobj_check(ctx, item, pending):
+    """
+    Direct oracle on ONE error object of the finite domain (public API: the error classes, `GraphQLResult(errors=[e])`):
+    the rendered response must be well-formed for the text the nodes come from. -> list of signatures
+    """
+    from py_gql.execution import GraphQLResult
+    cls, msg, nk, path, ek = item["cls"], item["msg"], item["nodes"], item["path"], item["ext"]
+    sigs = []
+    detail = dict(item, stream="errobj", text=X.DOMAIN_TEXT)
+    try:
+        e = X.make_error(cls, msg, nk, path, ek)
+        res = GraphQLResult(errors=[e])
+        resp, problems = O.strict_json_problems(res)
+    except Exception as ex:  # noqa
+        sigs.append("error-object-raises:%s:%s" % (cls, type(ex).__name__))
+        ctx.fail(sigs[-1], "building / rendering an error object raised %r" % ex, detail)
+        return sigs
+    ctx.count()
+    ctx.stat("errobj:" + cls)
+    bad = list(problems) + (O.well_formed(resp, X.DOMAIN_TEXT) if resp is not None else [])
+    for sig, d in bad:
+        sig = "errobj:" + sig       # the oracle's signature already names the minimal feature (e.g. empty `locations`)
+        sigs.append(sig)
+        ctx.fail(sig, "%s(message=%r, nodes=%s, path=%r, extensions=%s) renders to a response that is not well-formed: %s"
+                 % (cls, msg, nk, path, ek, d), dict(detail, observed=O.enc(resp)))
+    if nk != "none" or path or ek == "one" or not msg:
+        ctx.nontrivial(("errobj", cls, msg, nk, repr(path), ek))
+    if ctx.model_ok and pending is not None and resp is not None:
+        real = canon_resp(resp, False)
+        stages = {"text": O.cps(X.DOMAIN_TEXT), "validate": [abs_err(e)]}
+
+        def on_answer(ans, real=real, detail=detail):
+            if ans.get("response") != real:
+                ctx.fail("corr:to-dict:" + detail["cls"], "model of to_dict differs from the real error object on the finite domain",
+                         dict(detail, model=ans.get("response"), real=real), kind="correspondence")
+        pending.append(({"op": "process", "stages": stages, "real": real}, on_answer))
+    return sigs
+
+
+def errobj_stream(ctx, pending):
+    for cls, msg, nk, path, ek in X.located_domain():
+        errobj_check(ctx, {"cls": cls, "msg": msg, "nodes": nk, "path": path, "ext": ek}, pending)
+    flush(ctx, pending)
+
+
 def line_structure_check(ctx, texts):
     """the model's `splitLines` / `indexToLoc` against Python's LINE_TERMINATOR.split and the real index_to_loc, all positions"""
     from py_gql._string_utils import index_to_loc
@@ -954,6 +898,8 @@ def replay(ctx, data):
         except IndexError:
             return False
         return 1 <= lc[0] <= len(lines) and 1 <= lc[1] <= len(lines[lc[0] - 1]) + 1
+    if inp.get("stream") == "errobj":
+        return not errobj_check(ctx, {k: inp[k] for k in ("cls", "msg", "nodes", "path", "ext")}, None)
     if "text" not in inp:
         return True     # a record of a broken obligation / correspondence without a concrete input
     ctx.model_ok = False
